@@ -431,7 +431,22 @@ class MutableFileNode:
         def _maybe_retry(failure):
             failure.trap(NotEnoughSharesError)
 
-            d = self.get_best_mutable_version()
+            if self.is_readonly():
+                # For a read-only node get_best_mutable_version() falls
+                # back to MODE_READ, i.e. to the same partial survey that
+                # just failed. MODE_CHECK asks every server, like MODE_WRITE
+                # does, without needing the write key.
+                d = self._get_version_from_servermap(MODE_CHECK)
+                d.addCallback(lambda servermap_and_version:
+                              MutableFileVersion(self,
+                                                 servermap_and_version[0],
+                                                 servermap_and_version[1],
+                                                 self._storage_index,
+                                                 self._storage_broker,
+                                                 self._readkey,
+                                                 history=self._history))
+            else:
+                d = self.get_best_mutable_version()
             d.addCallback(self._record_size)
             d.addCallback(lambda version: version.download_to_data())
             return d
